@@ -370,6 +370,9 @@ func pathOf1(v ssa.Value, depth int) string {
 				p = q
 			} else if p != q {
 				if !local {
+					if pathMayMode {
+						return mayPathOf(v)
+					}
 					return ""
 				}
 				p = "A:phi"
@@ -379,6 +382,10 @@ func pathOf1(v ssa.Value, depth int) string {
 	}
 	return ""
 }
+
+// pathMayMode: pathOf answers "where may this point" for joins of one named location with local objects
+// (mayPathOf) instead of giving up. Only used to name what a store may write.
+var pathMayMode bool
 
 // of returns the effects of fn (transitively through static calls into the repository).
 func (E *Effects) of(fn *ssa.Function) []Effect {
@@ -400,6 +407,11 @@ func (E *Effects) of(fn *ssa.Function) []Effect {
 					continue // the spill of a value parameter into its own local
 				}
 				k := pathOf(x.Addr)
+				if k == "" {
+					pathMayMode = true
+					k = pathOf(x.Addr)
+					pathMayMode = false
+				}
 				if privatePath(k) {
 					continue // private local
 				}
@@ -424,6 +436,11 @@ func (E *Effects) of(fn *ssa.Function) []Effect {
 				if bi, ok := com.Value.(*ssa.Builtin); ok {
 					if bi.Name() == "copy" || bi.Name() == "clear" {
 						k := pathOf(com.Args[0])
+						if k == "" {
+							pathMayMode = true
+							k = pathOf(com.Args[0])
+							pathMayMode = false
+						}
 						if privatePath(k) {
 							continue
 						}
